@@ -306,11 +306,33 @@ UseRec(u) == LET t == Resolve(u.from, u.name)
                  \* visible from the importer, or the name is only the tail of their module name)
                  decoys  |-> {Path(m) : m \in Decoys(u.from, u.name, t)}]
 
+\* A history step at the project level: the root project's gleam.toml loses one of its dependency entries (the editor reports
+\* the file changed on disk) and gets it back later.  While the entry is gone the package is still on disk and may still be
+\* loaded, but it is no direct dependency of the root project any more: the imports of the root project's files resolve as
+\* under `deps` without that edge (everything else is unchanged).
+VisibleD(p, D) == IF p = 0 THEN {} ELSE {p} \cup {q \in Pkgs : <<p, q>> \in D}
+ResolveD(f, name, D) ==
+    LET r   == RootOf(Path(f))
+        C   == {m \in mods : m.pkg \in VisibleD(r, D) /\ ModuleName(Path(m)) = name}
+        own == {m \in C : m.pkg = r}
+        P   == IF own # {} THEN own ELSE C
+    IN IF P = {} THEN Unresolved ELSE CHOOSE m \in P : TRUE
+DropCands == {q \in Pkgs : <<1, q>> \in deps}
+Dropped   == CHOOSE q \in DropCands : \A x \in DropCands : q <= x
+Alt == IF DropCands = {} THEN [drop |-> "", dropname |-> "", uses |-> {}]
+       ELSE [drop |-> PkgId(Dropped), dropname |-> PkgName(Dropped),
+             uses |-> {LET t == ResolveD(u.from, u.name, deps \ {<<1, Dropped>>})
+                       IN [from |-> Path(u.from), name |-> u.name,
+                           target |-> IF t = Unresolved THEN <<>> ELSE Path(t),
+                           targetpkg |-> IF t = Unresolved THEN "" ELSE PkgId(t.pkg)] :
+                       u \in {v \in UseSites : v.from.pkg = 1}}]
+
 Config == [base  |-> base,
            pkgs  |-> [p \in Pkgs |-> PkgRec(p)],
            files |-> {FileRec(f) : f \in Files},
            order |-> [i \in 1..Len(opened) |-> Path(opened[i])],
-           uses  |-> {UseRec(u) : u \in UseSites}]
+           uses  |-> {UseRec(u) : u \in UseSites},
+           alt   |-> Alt]
 
 Finish ==
     /\ phase = "open" /\ Unopened = {}
@@ -376,6 +398,15 @@ ModuleNameInjective == Built =>
     /\ \A m1, m2 \in mods : m1.pkg = m2.pkg /\ ModuleName(Path(m1)) = ModuleName(Path(m2)) => m1 = m2
 
 \* Resolve is a function: at most one preferred target for every (file, name)
+\* dropping a dependency entry never makes an import resolve into that package, and never changes an import that did not
+\* resolve into it - except that an equally named module of ANOTHER visible package may now be the one meant
+DropIsLocal == Built => \A u \in {v \in UseSites : v.from.pkg = 1} :
+                  DropCands # {} =>
+                     LET t0 == Resolve(u.from, u.name)
+                         t1 == ResolveD(u.from, u.name, deps \ {<<1, Dropped>>})
+                     IN /\ (t1 # Unresolved => t1.pkg # Dropped)
+                        /\ (t0 # Unresolved /\ t0.pkg # Dropped => t1 = t0)
+
 ResolveIsFunction == Built =>
     \A f \in Files : \A n \in ImportNames : Cardinality(Preferred(f, n)) <= 1
 
